@@ -238,6 +238,20 @@ def check_helper_dtypes(ctx, what, helper, ikind, mat1, mat2, mode_in, mode_out,
             ctx.violate(f"{what}_at_interface({kind},{mi},{mo},{unit}) with {label}: {v.ravel()[:2]!r} (shape {v.shape}), expected {v_default!r} (shape {np.shape(ang)})",
                         {**cj, "variant": label}, {"kind": "helper_dtype"})
             return
+    # single-precision complex angles (complex64 container, kept as it is without force_complex): the same coefficient to single
+    # precision, on either side of the critical angles (complex refracted angles, never NaN)
+    with np.errstate(all="ignore"):
+        v64 = np.asarray(helper(ikind, mat1, mat2, mode_in, mode_out, np.full((2,), a, dtype=np.complex64), unit=unit, force_complex=False))
+    ctx.count("helper_variant:complex64 array, force_complex=False")
+    # (arcsin amplifies the 1e-7 rounding of a single-precision angle by 1/sqrt(1 - x^2): close to a critical angle only
+    #  finiteness is required, elsewhere agreement to a few per cent — a first version asked for 2e-3 everywhere and raised a false alarm)
+    c_inc_ = m["cF"] if kind == "fluid_solid" else (m["cL"] if mi == "L" else m["cT"])
+    crits_ = [np.arcsin(c_inc_ / c_) for c_ in (m["cF"], m["cL"], m["cT"]) if c_ > c_inc_]
+    near_ = any(abs(a - cr_) < 5e-2 for cr_ in crits_) or a > 1.45
+    if v64.shape != (2,) or not all(np.isfinite(complex(x)) and (near_ or abs(complex(x) - v_default) <= 5e-2 * max(abs(v_default), 1e-3) + 1e-3) for x in v64):
+        ctx.violate(f"{what}_at_interface({kind},{mi},{mo},{unit}) with complex64 angles: {v64!r}, expected {v_default!r} to single precision",
+                    {**cj, "variant": "complex64"}, {"kind": "helper_dtype_complex64"})
+        return
     # real dtype kept real: equal to the complex coefficient wherever that one is real (all refracted angles real)
     with np.errstate(all="ignore"):
         v = np.asarray(helper(ikind, mat1, mat2, mode_in, mode_out, np.asarray(a), unit=unit, force_complex=False))
